@@ -22,7 +22,7 @@ Why(e) ==
   ELSE IF ~e.unchanged THEN e.api \o " modified the File it was given (possibly behind len, within cap)"
   ELSE IF ~e.identical THEN "concurrent/repeated " \o e.api \o " calls returned different results"
   ELSE IF ~e.crossproc THEN e.api \o " returns different results in different processes (map iteration order?)"
-  ELSE IF ~e.history THEN e.api \o " returns a different result after earlier calls with other settings in the same process (not a function of its input alone)"
+  ELSE IF ~e.history THEN e.api \o " returns a different result after earlier calls in the same process, with other settings or on other schemas (not a function of its input alone)"
   ELSE ""
 \* the as-is model (GenConcurrency, Mode = "append"): appends of imported definitions land in the caller's spare capacity
 Dev(e) == IF "append_into_caller_capacity" \in Devs /\ e.api = "Generate" /\ e.imports /\ e.spare > 0 /\ (e.race \/ ~e.unchanged)
